@@ -145,7 +145,8 @@ def main(argv=None):
     cov.setdefault("evaluations", m["cases"])
     cov["distinct_nontrivial"] = len(m["nontrivial"])
     cov.setdefault("samples", m["samples"][:5])
-    cov["counters"] = m["counters"]
+    cov["counters"] = {k: v for k, v in m["counters"].items() if not k.startswith("calls:")}
+    cov["tealer_functions_entered_per_file_in_probed_batch"] = {k[6:]: v for k, v in sorted(m["counters"].items()) if k.startswith("calls:")}
     cov["inconclusive_cases"] = m["inconclusive"]
     cov["failed_batches"] = m["failed_batches"][:5]
     cov["known_findings_observed"] = {k: len(v) for k, v in listed.items()}
